@@ -10,8 +10,8 @@ use std::sync::{Arc, Mutex};
 pub fn prop() -> Prop {
   Prop {
     id: "C12",
-    rule: "case = (BehaviorSubject over Subject or SubjectThreads, initial value 100; history of <= 10 operations, each through one of <= 3 clones made at generated moments: next(v) with numbered values, next_by(+1000), clone, subscribe a probe, unsubscribe one probe, peek, complete, error). \
-           Oracle (model = current value + live subscribers): peek() == most recent value passed to any clone (initial value if none), also after a terminal; a new subscriber's first notification is that value (also when it joins after a terminal), then every later item exactly once in order, then the terminal once; next_by(f) emits f(current value); nothing is delivered to unsubscribed probes or after a terminal. Non-trivial: a value written through one clone is read (peek / subscribe / next_by) through another clone. Distinct by hash(case). Part `threads` (engine T): BehaviorSubject over SubjectThreads with one probe subscribed up front; two producer threads each send 1..2 numbered values through their own clone, a third thread subscribes a late probe; schedule = <= 3 preemptions at lock-acquisition granularity. Oracle: when all threads have finished, peek() equals the last value the up-front probe received (the common delivered order); the late probe's first value is the initial value or one of the produced values and it receives no value twice; no deadlock / panic. Part `short` enumerates all histories of length <= 5 (thorough tier).",
+    rule: "case = (BehaviorSubject over Subject or SubjectThreads, initial value 100; history of <= 10 operations, each through one of <= 3 clones made at generated moments: next(v) with numbered values, next_by(+1000), clone, subscribe a probe, unsubscribe one probe, peek, complete, error, subscribe a probe that calls peek() from inside its callback, subscribe a probe that subscribes a further probe from inside its callback while its second item is delivered). \
+           Oracle (model = current value + live subscribers): peek() from inside a callback returns the item being delivered; a probe subscribed from inside a callback starts with the item being delivered and then gets every later item once; peek() == most recent value passed to any clone (initial value if none), also after a terminal; a new subscriber's first notification is that value (also when it joins after a terminal), then every later item exactly once in order, then the terminal once; next_by(f) emits f(current value); nothing is delivered to unsubscribed probes or after a terminal. Non-trivial: a value written through one clone is read (peek / subscribe / next_by) through another clone. Distinct by hash(case). Part `threads` (engine T): BehaviorSubject over SubjectThreads with one probe subscribed up front; two producer threads each send 1..2 numbered values through their own clone, a third thread subscribes a late probe; schedule = <= 3 preemptions at lock-acquisition granularity. Oracle: when all threads have finished, peek() equals the last value the up-front probe received (the common delivered order); the late probe's first value is the initial value or one of the produced values and it receives no value twice; no deadlock / panic. Part `short` enumerates all histories of length <= 5 (thorough tier).",
     assumptions: &["threads part: sequentially consistent interleavings at lock-acquisition granularity"],
     parts: vec![
       Part { name: "histories", run: run_random, tape_len: 48, quick_cases: 800_000, thorough_cases: 16_000_000, exhaustive_depth: None, exhaustive_budget: 0, exh_quick: false },
@@ -31,40 +31,82 @@ enum Op {
   Peek(usize),
   Complete(usize),
   Error(usize),
+  /// subscribe a probe whose `next` callback calls `peek()` on a clone and records (item, peeked value)
+  SubscribePeeker(usize),
+  /// subscribe a probe that subscribes a further probe from inside its callback, while its second item is delivered
+  SubscribeNester(usize),
 }
 
 type Log = Arc<Mutex<Vec<(usize, SEvt)>>>;
 
-struct P {
+/// what a probe does from inside its `next` callback
+/// a parked subscription handle; histories run on one thread, the wrapper only satisfies the `Send` bound that the
+/// thread-safe subject puts on its observers
+struct Parked(#[allow(dead_code)] Box<dyn FnOnce()>);
+unsafe impl Send for Parked {}
+
+enum InCb<S: rxrust::rc::AssociatedRefPtr> {
+  Nothing,
+  /// peek through this clone; results go to the shared list as (item, peeked)
+  Peek(BehaviorSubject<i64, S>, Arc<Mutex<Vec<(i64, i64)>>>),
+  /// while the second item is delivered: subscribe probe `1000 + id` through this clone; the handle is parked in the list
+  Nest(BehaviorSubject<i64, S>, Arc<Mutex<Vec<Parked>>>),
+}
+struct P<S: rxrust::rc::AssociatedRefPtr> {
   id: usize,
   log: Log,
+  seen: usize,
+  incb: InCb<S>,
 }
-impl Observer<i64, u8> for P {
-  fn next(&mut self, v: i64) {
-    self.log.lock().unwrap().push((self.id, SEvt::N(v)))
-  }
-  fn error(self, e: u8) {
-    self.log.lock().unwrap().push((self.id, SEvt::E(e)))
-  }
-  fn complete(self) {
-    self.log.lock().unwrap().push((self.id, SEvt::C))
-  }
-  fn is_finished(&self) -> bool {
-    false
-  }
+macro_rules! impl_probe {
+  ($subj:ty) => {
+    impl Observer<i64, u8> for P<$subj> {
+      fn next(&mut self, v: i64) {
+        self.log.lock().unwrap().push((self.id, SEvt::N(v)));
+        self.seen += 1;
+        match &self.incb {
+          InCb::Nothing => {}
+          InCb::Peek(b, out) => {
+            let p = b.peek();
+            out.lock().unwrap().push((v, p));
+          }
+          InCb::Nest(b, park) => {
+            if self.seen == 2 {
+              let inner = P::<$subj> { id: 1000 + self.id, log: self.log.clone(), seen: 0, incb: InCb::Nothing };
+              let u = b.clone().actual_subscribe(inner);
+              park.lock().unwrap().push(Parked(Box::new(move || drop(u))));
+            }
+          }
+        }
+      }
+      fn error(self, e: u8) {
+        self.log.lock().unwrap().push((self.id, SEvt::E(e)))
+      }
+      fn complete(self) {
+        self.log.lock().unwrap().push((self.id, SEvt::C))
+      }
+      fn is_finished(&self) -> bool {
+        false
+      }
+    }
+  };
 }
+impl_probe!(Subject<'static, i64, u8>);
+impl_probe!(SubjectThreads<i64, u8>);
 
 /// what the real object did: (peek results in order, delivery log)
 macro_rules! impl_run {
   ($name:ident, $subj:ty) => {
-    fn $name(initial_clones: usize, ops: &[Op]) -> (Vec<i64>, Vec<(usize, SEvt)>) {
+    fn $name(initial_clones: usize, ops: &[Op]) -> (Vec<i64>, Vec<(usize, SEvt)>, Vec<(i64, i64)>) {
       let log: Log = Arc::new(Mutex::new(vec![]));
       let mut clones = vec![BehaviorSubject::<i64, $subj>::new(100)];
       for _ in 1..initial_clones {
         let k = clones[0].clone();
         clones.push(k);
       }
-      let mut subs: Vec<Option<<$subj as Observable<i64, u8, P>>::Unsub>> = vec![];
+      let mut subs: Vec<Option<<$subj as Observable<i64, u8, P<$subj>>>::Unsub>> = vec![];
+      let inpeeks: Arc<Mutex<Vec<(i64, i64)>>> = Arc::new(Mutex::new(vec![]));
+      let park: Arc<Mutex<Vec<Parked>>> = Arc::new(Mutex::new(vec![]));
       let mut peeks = vec![];
       let mut item = 0;
       let mut next_probe = 0;
@@ -83,7 +125,14 @@ macro_rules! impl_run {
             }
           }
           Op::Subscribe(c) => {
-            let p = P { id: next_probe, log: log.clone() };
+            let p = P::<$subj> { id: next_probe, log: log.clone(), seen: 0, incb: InCb::Nothing };
+            next_probe += 1;
+            subs.push(Some(clones[*c % n].clone().actual_subscribe(p)));
+          }
+          Op::SubscribePeeker(c) | Op::SubscribeNester(c) => {
+            let b = clones[*c % n].clone();
+            let incb = if matches!(op, Op::SubscribePeeker(_)) { InCb::Peek(b, inpeeks.clone()) } else { InCb::Nest(b, park.clone()) };
+            let p = P::<$subj> { id: next_probe, log: log.clone(), seen: 0, incb };
             next_probe += 1;
             subs.push(Some(clones[*c % n].clone().actual_subscribe(p)));
           }
@@ -99,7 +148,12 @@ macro_rules! impl_run {
         }
       }
       let l = log.lock().unwrap().clone();
-      (peeks, l)
+      let ip = inpeeks.lock().unwrap().clone();
+      // break the cycles probe -> subject clone -> probe
+      drop(subs);
+      drop(clones);
+      park.lock().unwrap().clear();
+      (peeks, l, ip)
     }
   };
 }
@@ -108,7 +162,9 @@ impl_run!(run_threads, SubjectThreads<i64, u8>);
 
 struct Expect {
   peeks: Vec<i64>,
-  per_sub: Vec<Vec<SEvt>>,
+  /// (probe id, expected notifications)
+  per_sub: Vec<(usize, Vec<SEvt>)>,
+  in_callback: bool,
   cross_clone_read: bool,
 }
 
@@ -116,6 +172,10 @@ fn model(initial_clones: usize, ops: &[Op]) -> Expect {
   let mut value = 100i64;
   let mut n_clones = initial_clones;
   let mut subs: Vec<(bool, Vec<SEvt>)> = vec![]; // (alive, expected)
+  let mut ids: Vec<usize> = vec![];
+  let mut nester: Vec<bool> = vec![];
+  let mut next_probe = 0usize;
+  let mut in_callback = false;
   let mut handle_alive: Vec<bool> = vec![];
   let mut dead = false;
   let mut peeks = vec![];
@@ -138,8 +198,20 @@ fn model(initial_clones: usize, ops: &[Op]) -> Expect {
         value = v;
         last_writer = Some(c);
         if !dead {
-          for s in subs.iter_mut().filter(|s| s.0) {
+          let mut born: Vec<usize> = vec![];
+          for (k, s) in subs.iter_mut().enumerate().filter(|(_, s)| s.0) {
             s.1.push(SEvt::N(v));
+            // a nester subscribes a new probe while its second item is delivered: that probe starts with the value
+            // being delivered and is not part of the broadcast under way
+            if nester[k] && s.1.len() == 2 {
+              born.push(ids[k]);
+            }
+          }
+          for b in born {
+            subs.push((true, vec![SEvt::N(v)]));
+            ids.push(1000 + b);
+            nester.push(false);
+            in_callback = true;
           }
         }
       }
@@ -153,6 +225,22 @@ fn model(initial_clones: usize, ops: &[Op]) -> Expect {
           cross = true;
         }
         subs.push((!dead, vec![SEvt::N(value)]));
+        ids.push(next_probe);
+        nester.push(false);
+        next_probe += 1;
+        handle_alive.push(true);
+      }
+      Op::SubscribePeeker(c) | Op::SubscribeNester(c) => {
+        if last_writer.map_or(false, |w| w != *c % n_clones) {
+          cross = true;
+        }
+        if matches!(op, Op::SubscribePeeker(_)) {
+          in_callback = true;
+        }
+        subs.push((!dead, vec![SEvt::N(value)]));
+        ids.push(next_probe);
+        nester.push(matches!(op, Op::SubscribeNester(_)));
+        next_probe += 1;
         handle_alive.push(true);
       }
       Op::UnsubOne(i) => {
@@ -160,7 +248,9 @@ fn model(initial_clones: usize, ops: &[Op]) -> Expect {
         if !live.is_empty() {
           let k = live[*i % live.len()];
           handle_alive[k] = false;
-          subs[k].0 = false;
+          // (handles index the probes made by subscribe operations; probes born inside callbacks come later in `subs`)
+          let pos = ids.iter().position(|i| *i == k).unwrap();
+          subs[pos].0 = false;
         }
       }
       Op::Peek(c) => {
@@ -181,7 +271,7 @@ fn model(initial_clones: usize, ops: &[Op]) -> Expect {
       }
     }
   }
-  Expect { peeks, per_sub: subs.into_iter().map(|s| s.1).collect(), cross_clone_read: cross }
+  Expect { peeks, per_sub: ids.into_iter().zip(subs.into_iter().map(|s| s.1)).collect(), in_callback, cross_clone_read: cross }
 }
 
 fn finish(threads: bool, k: usize, ops: Vec<Op>, ctx: &Ctx) -> Outcome {
@@ -192,15 +282,20 @@ fn finish(threads: bool, k: usize, ops: Vec<Op>, ctx: &Ctx) -> Outcome {
   if exp.cross_clone_read {
     labels.push("cross-clone-read");
   }
+  if exp.in_callback {
+    labels.push("peek-or-subscribe-inside-callback");
+  }
   let verdict = match &res {
     Err(m) => Verdict::Violation { sig: format!("panic:BehaviorSubject<{kind}>"), detail: m.clone() },
-    Ok((peeks, log)) => {
-      if *peeks != exp.peeks {
+    Ok((peeks, log, inpeeks)) => {
+      if let Some((v, p)) = inpeeks.iter().find(|(v, p)| v != p) {
+        Verdict::Violation { sig: format!("peek-in-callback:BehaviorSubject<{kind}>"), detail: format!("peek() called from a subscriber's callback while item {v} was delivered returned {p}") }
+      } else if *peeks != exp.peeks {
         Verdict::Violation { sig: format!("peek:BehaviorSubject<{kind}>"), detail: format!("peek() returned {:?}, expected {:?}", peeks, exp.peeks) }
       } else {
         let mut v = Verdict::Ok;
-        for (id, e) in exp.per_sub.iter().enumerate() {
-          let got: Vec<SEvt> = log.iter().filter(|(i, _)| *i == id).map(|(_, e)| e.clone()).collect();
+        for (id, e) in exp.per_sub.iter() {
+          let got: Vec<SEvt> = log.iter().filter(|(i, _)| i == id).map(|(_, e)| e.clone()).collect();
           if got != *e {
             let k = if got.first() != e.first() { "first-value" } else { "trace" };
             v = Verdict::Violation { sig: format!("{k}:BehaviorSubject<{kind}>"), detail: format!("subscriber {id} received {:?}, expected {:?}", got, e) };
@@ -214,7 +309,7 @@ fn finish(threads: bool, k: usize, ops: Vec<Op>, ctx: &Ctx) -> Outcome {
   let desc = if ctx.want_desc || matches!(verdict, Verdict::Violation { .. }) {
     Some(json!({
       "subject": format!("BehaviorSubject<i64, {kind}>::new(100), {k} clone(s) made up front"), "history": ops.iter().map(|o| format!("{o:?}")).collect::<Vec<_>>(),
-      "observed": res.as_ref().map(|(p, l)| json!({"peeks": p, "delivered(subscriber,event)": l.iter().map(|(i,e)| format!("{i}:{e:?}")).collect::<Vec<_>>()})).unwrap_or_else(|m| json!({"panic": m})),
+      "observed": res.as_ref().map(|(p, l, ip)| json!({"peeks": p, "peeks_in_callbacks(item, peeked)": ip, "delivered(subscriber,event)": l.iter().map(|(i,e)| format!("{i}:{e:?}")).collect::<Vec<_>>()})).unwrap_or_else(|m| json!({"panic": m})),
     }))
   } else {
     None
@@ -224,7 +319,7 @@ fn finish(threads: bool, k: usize, ops: Vec<Op>, ctx: &Ctx) -> Outcome {
 
 fn gen_op(c: &mut dyn Choices, compact: bool) -> Op {
   let k = if compact { 2 } else { 3 };
-  match c.pick(if compact { 8 } else { 12 }) {
+  match c.pick(if compact { 8 } else { 14 }) {
     0 => Op::Next(c.pick(k)),
     1 => Op::NextBy(c.pick(k)),
     2 => Op::CloneOf(0),
@@ -235,7 +330,10 @@ fn gen_op(c: &mut dyn Choices, compact: bool) -> Op {
     7 => Op::Error(0),
     8 | 9 => Op::Next(c.pick(k)),
     10 => Op::Subscribe(c.pick(k)),
-    _ => Op::Peek(c.pick(k)),
+    11 => Op::Peek(c.pick(k)),
+    // (alternatives added at the high end: recorded tapes keep their meaning)
+    12 => Op::SubscribePeeker(c.pick(k)),
+    _ => Op::SubscribeNester(c.pick(k)),
   }
 }
 
@@ -270,7 +368,7 @@ fn run_engine_t(c: &mut dyn Choices, ctx: &Ctx) -> Outcome {
   crate::vtime::reset(crate::vtime::Mode::Fifo);
   let log: Log = Arc::new(Mutex::new(vec![]));
   let bs = BehaviorSubject::<i64, SubjectThreads<i64, u8>>::new(100);
-  let _s0 = bs.clone().actual_subscribe(P { id: 0, log: log.clone() });
+  let _s0 = bs.clone().actual_subscribe(P::<SubjectThreads<i64, u8>> { id: 0, log: log.clone(), seen: 0, incb: InCb::Nothing });
   let mut bodies: Vec<Box<dyn FnOnce() + Send>> = vec![];
   for (t, n) in [(0usize, n1), (1usize, n2)] {
     let mut b = bs.clone();
@@ -287,7 +385,7 @@ fn run_engine_t(c: &mut dyn Choices, ctx: &Ctx) -> Outcome {
     let lg = log.clone();
     bodies.push(Box::new(move || {
       engine_t::call_begin();
-      let s = b.actual_subscribe(P { id: 1, log: lg });
+      let s = b.actual_subscribe(P::<SubjectThreads<i64, u8>> { id: 1, log: lg, seen: 0, incb: InCb::Nothing });
       engine_t::call_end();
       std::mem::forget(s);
     }));
